@@ -249,7 +249,9 @@ def reify_type(t, ct: ClassTable) -> str:
 # ----------------------------------------------------------------------------------------------
 def run_coqc(path: str, timeout=600):
     """coqc one file with the MT library on the path; returns (rc, stdout+stderr)."""
-    p = subprocess.run(["coqc", "-q", "-Q", COQ, "MT", path], capture_output=True, text=True, timeout=timeout,
+    # case files hold large literal terms: lift the stack limit for the parser (as far as the hard limit permits)
+    cmd = 'ulimit -s unlimited 2>/dev/null || ulimit -s $(ulimit -Hs) 2>/dev/null; exec coqc -q -Q "$0" MT "$1"'
+    p = subprocess.run(["bash", "-c", cmd, COQ, path], capture_output=True, text=True, timeout=timeout,
                        cwd=os.path.dirname(path))
     return p.returncode, p.stdout + p.stderr
 
